@@ -226,6 +226,10 @@ def judge(ctx, case):
             reads['unpack-[Dtype]'] = lambda: s.unpack([Dtype(name, n)])[0]
         if fam != 'bool':
             reads['unpack-kwlen'] = lambda: s.unpack(f'{name}:k', k=n)[0]
+            # several keyword arguments, given in an order that is not the alphabetical one
+            reads['unpack-kwlen-among-others'] = lambda: s.unpack(f'{name}:zk', zk=n, mk=n + 1, ak=3)[0]
+            reads['readlist-kwlen-among-others'] = lambda: ConstBitStream(s).readlist(f'{name}:n', n=n, a=1, z=2)[0]
+            reads['peeklist-kwlen-among-others'] = lambda: BitStream(s).peeklist([f'{name}:w'], w=n, b=5)[0]
             reads['readlist-kwlen'] = lambda: ConstBitStream(s).readlist(f'{name}:k', k=n)[0]
             reads['peeklist-kwlen'] = lambda: BitStream(s).peeklist([f'{name}:k'], k=n)[0]
             reads['prop+len'] = lambda: getattr(s, f'{name}{n}')
@@ -243,6 +247,18 @@ def judge(ctx, case):
             else:
                 shape = 'unexpected-exc:' + type(got[1]).__name__ if got[0] == 'exc' else 'value'
                 ctx.mismatch(f'C02|read:{rname}|{fam}|{shape}', case, f'{name}{n} bits {exp[:60]}: got {got[1]!r:.60} expected {expv!r:.60}')
+        # the value of a whole bitstring does not depend on the bit numbering in force when it is read
+        with util.options(lsb0=True):
+            for rname in ('prop', 'Dtype.parse', 'unpack-sized', 'prop+len', 'read', 'read-Dtype'):
+                if rname not in reads:
+                    continue
+                got = call(reads[rname])
+                ctx.op('read', 'ok' if got[0] == 'ok' else type(got[1]).__name__)
+                if got[0] == 'ok' and K.same_value(got[1], expv) and _same_type(got[1], expv):
+                    ctx.ok((name, _nclass(n), vclass(name, v), 'read-under-lsb0:' + rname), nontrivial)
+                else:
+                    shape = 'unexpected-exc:' + type(got[1]).__name__ if got[0] == 'exc' else 'value'
+                    ctx.mismatch(f'C02|read-under-lsb0:{rname}|{fam}|{shape}', case, f'{name}{n} bits {exp[:60]}: got {got[1]!r:.60} expected {expv!r:.60}')
         # value round trip (what was put in comes out; floats after rounding to the width)
         if fam == 'float':
             rt = K.decode(c, K.encode(c, n, pv))
